@@ -220,6 +220,9 @@ func c19(r *core.Run) {
 	matcherParts(r, "C19.ONE2ONE", "C19.THRESH")
 	c19Sym(r)
 	c19Range(r)
+	// a function can be recognised under a new name only through its topology, which is extracted from the SSA
+	// function a fingerprint result carries (shared with C16)
+	r.Under("C16.ENUM", "C19.HANDLE", func() { c16Handle(r) })
 	// STATUS
 	n := 0
 	for _, fn := range p.FuncsIn("internal/cli") {
